@@ -19,6 +19,7 @@ package resilience
 
 import (
 	"context"
+	"fmt"
 	"math/rand"
 	"time"
 )
@@ -50,7 +51,11 @@ type RetryPolicy struct {
 
 // Validate validates the retry policy.
 func (p *RetryPolicy) Validate() error {
-	// TODO
+	// the 'minimum=0' of the schema tag is dropped by the schema generator,
+	// and a negative factor makes Wrap call rand.Intn with a negative bound.
+	if p.RandomizationFactor < 0 || p.RandomizationFactor > 1 {
+		return fmt.Errorf("randomizationFactor must be in [0, 1]")
+	}
 	return nil
 }
 
